@@ -28,17 +28,17 @@ Snapshot(C) == [d \in Included(C) |-> C[d]]
 IsEvent(e) == l <= Len(Log) /\ Log[l].e = e /\ l' = l + 1
 
 TraceInit == /\ l = 1
-             /\ content = <<>> /\ dirs = <<>>
+             /\ style = "quoted" /\ content = <<>> /\ dirs = <<>>
              /\ last = [outcome |-> "none"] /\ edits = 0 /\ builds = 0 /\ hist = <<>>
 
 Reset == /\ IsEvent("reset")
          /\ content' = [h \in DOMAIN Log[l].init |-> Conv(Log[l].init[h])]
          /\ dirs' = <<>>
-         /\ UNCHANGED <<last, edits, builds, hist>>
+         /\ UNCHANGED <<style, last, edits, builds, hist>>
 
 EditEvent == /\ IsEvent("edit")
              /\ content' = [content EXCEPT ![Log[l].h] = [val |-> Log[l].val, inc |-> ToSet(Log[l].inc)]]
-             /\ UNCHANGED <<dirs, last, edits, builds, hist>>
+             /\ UNCHANGED <<style, dirs, last, edits, builds, hist>>
 
 BuildEvent ==
   /\ IsEvent("build")
@@ -51,7 +51,7 @@ BuildEvent ==
         \/ /\ ev.act = "compiled"
            /\ ev.dir \notin DOMAIN dirs
            /\ dirs' = dirs @@ (ev.dir :> Snapshot(content))
-  /\ UNCHANGED <<content, last, edits, builds, hist>>
+  /\ UNCHANGED <<style, content, last, edits, builds, hist>>
 
 TraceNext == Reset \/ EditEvent \/ BuildEvent
 TraceSpec == TraceInit /\ [][TraceNext]_<<vars, l>>
